@@ -1,5 +1,7 @@
 //! Shared helpers for the correspondence harness (one binary per property under src/bin).
 pub mod prog;
+#[cfg(feature = "meta")]
+pub mod gram;
 use std::panic;
 
 /// splitmix64: the single PRNG every random choice derives from (seeded by VERIF_SEED).
